@@ -99,6 +99,10 @@ func init() {
 		in.hostState["selectnondet"] = args[0].(*Term).IsTrue()
 		return nil
 	})
+	reg(RT+".SelectNondetBudget", func(in *Interp, fr *frame, args []Value) Value {
+		in.hostState["selectbudget"] = cint(in, args[0], "SelectNondetBudget")
+		return nil
+	})
 	reg(RT+".Symbolic", func(in *Interp, fr *frame, args []Value) Value { return in.tb.T })
 	reg(RT+".TempDir", func(in *Interp, fr *frame, args []Value) Value { return "/data" })
 	reg(RT+".Stub", func(in *Interp, fr *frame, args []Value) Value {
